@@ -20,6 +20,7 @@ class StatementSplitter:
         self._case_depth = 0
         self._is_create = False
         self._begin_depth = 0
+        self._loop_pending = False
 
         self.consume_ws = False
         self.tokens = []
@@ -79,9 +80,28 @@ class StatementSplitter:
                 and self._is_create and self._begin_depth > 0):
             if unified == 'CASE':
                 self._case_depth += 1
+            elif unified != 'IF':
+                # FOR ... LOOP and WHILE ... LOOP end with END LOOP
+                self._loop_pending = True
+            return 1
+
+        if unified == 'DO':
+            # WHILE ... DO ends with END WHILE
+            self._loop_pending = False
+            return 0
+
+        if unified == 'LOOP' and self._is_create and self._begin_depth > 0:
+            if self._loop_pending:
+                # the loop was opened by its FOR or WHILE
+                self._loop_pending = False
+                return 0
             return 1
 
         if unified in ('END IF', 'END FOR', 'END WHILE'):
+            return -1
+
+        if (unified == 'END LOOP'
+                and self._is_create and self._begin_depth > 0):
             return -1
 
         # Default
